@@ -60,6 +60,12 @@ struct CondBoth : LedgeredT<5>
 	bool operator() (int arg) const { touch(); return deliverCondition(id - kAuxBase, arg, true); }
 	bool operator() () const { touch(); return deliverCondition(id - kAuxBase, 0, false); }
 };
+// a condition whose result is not a bool: any non-zero value means "the condition holds"
+struct CondInt : LedgeredT<5>
+{
+	explicit CondInt(int cb) : LedgeredT<5>(kAuxBase + cb) {}
+	int operator() (int arg) const { touch(); return deliverCondition(id - kAuxBase, arg, true) ? 2 + (arg & 4) : 0; }
+};
 struct CondNoArg : LedgeredT<5>
 {
 	explicit CondNoArg(int cb) : LedgeredT<5>(kAuxBase + cb) {}
@@ -74,7 +80,7 @@ struct ITarget
 	virtual bool canQueue() const = 0;
 	virtual void add(int obj, int key, int how, int before, int cb) = 0;
 	virtual void addCounter(int obj, int key, int how, int before, int cb, int n) = 0;
-	virtual void addCond(int obj, int key, int how, int before, int cb, int form) = 0; // form: 0 no argument, 1 argument, 2 both
+	virtual void addCond(int obj, int key, int how, int before, int cb, int form) = 0; // form: 0 no argument, 1 argument, 2 both, 3 argument with an int result
 	virtual bool remove(int obj, int key, int h) = 0;
 	virtual void trigger(int obj, int key, int arg, bool queued) = 0;
 	virtual void enumerate(int obj, int key, std::vector<int> & out) = 0;
@@ -197,7 +203,8 @@ struct Target : ITarget
 		handles.push_back(A::cadd(eventpp::counterRemover(objs[o]), k, how, H(b), RL(cb), n));
 	}
 	void addCond(int o, int k, int how, int b, int cb, int form) override {
-		if(form == 2) handles.push_back(A::dadd(eventpp::conditionalRemover(objs[o]), k, how, H(b), RL(cb), CondBoth(cb)));
+		if(form == 3) handles.push_back(A::dadd(eventpp::conditionalRemover(objs[o]), k, how, H(b), RL(cb), CondInt(cb)));
+		else if(form == 2) handles.push_back(A::dadd(eventpp::conditionalRemover(objs[o]), k, how, H(b), RL(cb), CondBoth(cb)));
 		else if(form == 1) handles.push_back(A::dadd(eventpp::conditionalRemover(objs[o]), k, how, H(b), RL(cb), Cond(cb)));
 		else handles.push_back(A::dadd(eventpp::conditionalRemover(objs[o]), k, how, H(b), RL(cb), CondNoArg(cb)));
 	}
@@ -291,6 +298,7 @@ struct Interp
 	bool c16 = false;
 	int pendingCond = -1;
 	bool condBothForms = false;
+	bool selfMoveAssign = false, condIntResult = false;
 
 	bool moveAssignBothOwn = false, bothGoneAfter = false, nontrivCounter = false, reentrant = false, condTrueNested = false, otherPresent = false;
 	std::set<std::pair<int, int> > maPairs;
@@ -444,8 +452,10 @@ struct Interp
 			}
 			else {
 				nodes[node].kind = N_COND; nodes[node].condBits = op.a >> 2; nodes[node].condWithArg = (op.a & 2) != 0;
-				lib->addCond(obj, key, how, before, nodes[node].cb, nodes[node].condWithArg ? (((op.a >> 7) & 1) ? 2 : 1) : 0);
-				if(nodes[node].condWithArg && ((op.a >> 7) & 1)) condBothForms = true;
+				const int top2 = (op.a >> 6) & 3;
+				lib->addCond(obj, key, how, before, nodes[node].cb, nodes[node].condWithArg ? (top2 >= 2 ? 2 : top2 == 1 ? 3 : 1) : 0);
+				if(nodes[node].condWithArg && top2 >= 2) condBothForms = true;
+				if(nodes[node].condWithArg && top2 == 1) condIntResult = true;
 				log << "(n" << node << " cond " << nodes[node].condBits << ")";
 			}
 			break;
@@ -518,7 +528,14 @@ struct Interp
 		}
 		case R_MOVEASSIGN: {
 			int src = ((op.b % kRemovers) + kRemovers) % kRemovers;
-			if(! impl->hasScoped() || ! rm[s].alive || ! rm[src].alive || src == s) break;
+			if(! impl->hasScoped() || ! rm[s].alive || ! rm[src].alive) break;
+			if(src == s) {
+				// move assignment from itself: the remover stays alive and responsible, so nothing may be detached
+				lib->rmMoveAssign(s, s);
+				selfMoveAssign = true;
+				log << "(r" << s << "<-itself)";
+				break;
+			}
 			if(! rm[s].owned.empty() && ! rm[src].owned.empty()) moveAssignBothOwn = true;
 			// what the destination was responsible for: may be detached now or stay until both removers are gone
 			for(int n : rm[s].owned) {
@@ -813,6 +830,8 @@ Verdict runOnce(const Program & p, const std::string & prop, FaultPlan * plan)
 		cls(in.reentrant, "reentrant_trigger");
 		cls(in.condTrueNested, "condition_true_on_nested_trigger");
 		cls(in.condBothForms, "condition_callable_with_and_without_arguments");
+		cls(in.condIntResult, "condition_returning_an_int");
+		cls(in.selfMoveAssign, "remover_move_assigned_from_itself");
 		cls(in.otherPresent, "other_listeners_present");
 		if(prop == "C15") v.nontrivial = in.moveAssignBothOwn;
 		else v.nontrivial = ((in.nontrivCounter && in.reentrant) || in.condTrueNested) && in.otherPresent;
